@@ -195,7 +195,7 @@ def _rt_cases(draw, large=False):
             spec = dict(spec, noop=False)
     table = build_table(spec)
     ok_roles, _ = unambiguous_roles(table)
-    pool = ok_roles + ok_roles + AMR_EXTRA[:draw(st.integers(1, len(AMR_EXTRA)))]
+    pool = ok_roles + ok_roles + AMR_EXTRA[:draw(st.integers(1, len(AMR_EXTRA)))] + models.case_variants(table, 2)
     R = roles_for(spec)
     fwd = [r for r in dict.fromkeys(pool) if R.is_canonical_inversion(r) and not R.inverted(r)]
     inv = {}
